@@ -47,6 +47,7 @@ type Node struct {
 	LastHash  []byte    // fake hash of last committed block
 	ValSet    *RefValSet
 	Responses []*abci.ResponseFinalizeBlock
+	InitialHeight int64 // first height of this chain (1 unless started from an export)
 }
 
 var nodeSeq int
@@ -180,8 +181,8 @@ func (n *Node) NodeAddr() []byte { return n.Cfg.Vals[n.Cfg.NodeVal].Key.Addr() }
 // LastCommit builds the DecidedLastCommit for the block at height h (votes for h-1).
 func (n *Node) LastCommit(h int64, absent map[string]bool) abci.CommitInfo {
 	ci := abci.CommitInfo{}
-	if h < 2 {
-		return ci
+	if h < 2 || h <= n.InitialHeight {
+		return ci // the first block of a chain carries no last commit
 	}
 	for _, v := range n.ValSet.At(h - 1) {
 		flag := cmtproto.BlockIDFlagCommit
